@@ -41,6 +41,9 @@ def run(chk, facts_dir, tier):
     chk.rule("R17.2", "WRITER/READER AGREEMENT: Writer::append checksums (length_with_flag bytes, header, final_data) and writes exactly those pieces (length, crc, header, data) "
                       "in that order; replace_header_with recomputes the checksum over the rebuilt length word, the new header and the on-disk data")
     chk.rule("R17.3", "CHECKSUM COVERAGE: calculate_crc32c feeds its three arguments, unmodified, to the hasher (the raw length word including the compression flag is covered)")
+    chk.rule("R17.5", "MARKER WIDTH: every reader tests exactly the bytes the writer zeroes: the slice given to is_truncation_marker has the width of the zero array "
+                      "Writer::set_len writes at the new end (the whole record head, length word and checksum); a narrower test takes a valid record with a zero length word "
+                      "for the end of the log, a wider one reads past the marker")
     chk.rule("R17.4", "BOUNDS: every positional read of record bytes is dominated by a comparison of its end with the flushed offset loaded in the same call; "
                       "the truncation-marker test precedes length decoding")
     chk.not_decided += ["CRC arithmetic itself (crc32fast)", "byte-identical round trip of payloads (value equality)", "zstd"]
@@ -179,7 +182,72 @@ def run(chk, facts_dir, tier):
         else:
             chk.ok("R17.4", "%s: %d reads, each after a flushed-offset bound check" % (path.split("::")[-1], len(reads)), b.where())
     # R5.4 (reopen clause) is shared with C05
+    _marker_width(chk, prog)
     return {}
+
+
+def _slice_width(term):
+    """width of `base[..c]` / `base[a..a+c]` as an int, else None"""
+    from ..gate import linear
+    t = strip(term)
+    if t[0] != "call" or not t[1].endswith("::index") or len(t[2]) != 2:
+        return None
+    r = strip(t[2][1])
+    if r[0] != "agg":
+        return None
+    if r[1].endswith("ops::RangeTo") and len(r[2]) == 1:
+        e = strip(r[2][0])
+        return e[2] if e[0] == "const" else None
+    if r[1].endswith("ops::Range") and len(r[2]) == 2:
+        sb, so = linear(r[2][0])
+        eb, eo = linear(r[2][1])
+        if show(sb) == show(eb):
+            return eo - so
+        if strip(r[2][0])[0] == "const" and strip(r[2][1])[0] == "const":
+            return strip(r[2][1])[2] - strip(r[2][0])[2]
+    return None
+
+
+def _marker_width(chk, prog):
+    import re
+    wb = prog.body("seglog::write::Writer::<H>::set_len")
+    width = None
+    for bi, t in wb.calls():
+        if (wb.callee_decl(t) or "").endswith("write_all_at"):
+            p = op_place(t["args"][1])
+            l = p["l"] if p else None
+            for _ in range(6):
+                if l is None:
+                    break
+                m = re.match(r"^&?\s*\[u8; (\d+)\]$", wb.local_ty(l).strip())
+                if m:
+                    width = int(m.group(1))
+                    break
+                ds = [d for d in wb.defs.get(l, []) if not d[2]["p"]]
+                if len(ds) != 1:
+                    break
+                rv = ds[0][3]
+                q = op_place(rv.get("op")) if rv["k"] in ("use", "cast") else (rv.get("place") if rv["k"] == "ref" else None)
+                l = q["l"] if q else None
+    if width is None:
+        raise Inconclusive("set_len: the width of the zero marker written with write_all_at could not be determined")
+    n = 0
+    for p, b in sorted(prog.bodies.items()):
+        for bi, t in b.calls():
+            if not (b.callee_decl(t) or "").endswith("read::is_truncation_marker"):
+                continue
+            n += 1
+            ev = Ev(prog, b)
+            w = _slice_width(ev.operand(t["args"][0], (bi, "T")))
+            if w is None:
+                chk.inconc("%s L%s: the width of the slice given to is_truncation_marker could not be determined" % (p, t.get("line")))
+            elif w == width:
+                chk.ok("R17.5", "%s tests %d bytes = the marker Writer::set_len writes" % (p.rsplit("::", 1)[-1], w), b.where(t["line"]))
+            else:
+                chk.fail("R17.5", b.root or b.path, "marker-width", "the truncation-marker test looks at %d bytes but Writer::set_len writes a %d-byte zero marker: "
+                         "%s" % (w, width, "a valid record whose first %d bytes are zero (empty record: zero length word, non-zero checksum) is taken for the end of the log" % w
+                         if w < width else "bytes after the marker decide whether it is recognised"), b, t["line"])
+    chk.floor("R17.5", n, 3)
 
 
 def _roots(term):
